@@ -2,7 +2,7 @@
 accounting, correspondence run, evidence and replay writing."""
 import fcntl, glob, hashlib, importlib.util, json, os, re, shutil, subprocess, sys, time
 
-V = '/verif'
+V = os.environ.get('VERIF_HOME') or os.path.dirname(os.path.dirname(os.path.abspath(__file__)))
 REPO = os.path.abspath(os.environ.get('VERIF_REPO', '/repo'))
 MAIN = REPO == '/repo'
 # A workspace holds everything a run writes.  For /repo it is /verif itself
@@ -228,7 +228,7 @@ def theorem_statements(vfile, limit=3):
 
 def build_model(pid):
     """Extract and compile the OCaml model driver of a property."""
-    return sh([f'{V}/tools/build_model.sh', pid.lower(), COQ, WS], timeout=1800)
+    return sh([f'{V}/tools/build_model.sh', pid.lower(), COQ, WS], timeout=1800, env=dict(os.environ, VERIF_HOME=V))
 
 
 def load_known():
